@@ -6,6 +6,7 @@
 #include "c16.c"
 #include "c17.c"
 #include "c14.c"
+#include "c04.c"
 
 int main(int argc,char **argv){
   if(argc<2){ fprintf(stderr,"usage: vharn <stream>\n"); return 2; }
@@ -13,6 +14,7 @@ int main(int argc,char **argv){
   if(!strcmp(argv[1],"c16")) return c16_main(argc-1,argv+1);
   if(!strcmp(argv[1],"c17")) return c17_main(argc-1,argv+1);
   if(!strcmp(argv[1],"c14")) return c14_main(argc-1,argv+1);
+  if(!strcmp(argv[1],"c04")) return c04_main(argc-1,argv+1);
   fprintf(stderr,"vharn: unknown stream %s\n",argv[1]);
   return 2;
 }
